@@ -256,3 +256,14 @@ class MapperFilter:
 
     def post_known(self, result):
         return forall(int, lambda k: implies(0 <= k and k < len(result), result[k] in self.instances))
+
+
+@contract('process:ProcessStatus.possible_identifiers', props=[])
+class PossibleIdentifiers:
+    """read-only list of the identifiers where the program could be started (C04 / C14)"""
+    assumed = True
+    raises = ()
+    returns = 'List[str]'
+
+    def modifies(self):
+        return []
